@@ -46,7 +46,11 @@ class SimFS:
         return d
 
     def inside(self, p):
-        return self.root is not None and p.startswith(self.root + os.sep)
+        if self.root is None:
+            return False
+        if not os.path.isabs(p):
+            p = os.path.join(os.getcwd(), p)
+        return p.startswith(self.root + os.sep)
 
     # --------------------------------------------------------------- faults
     def arm(self, when, errno_name):
